@@ -22,11 +22,6 @@ Proof.
   - apply orb_false_iff in H as [Hb Hm]. rewrite Hb. f_equal. apply IH. exact Hm.
 Qed.
 
-Lemma firstn_app_exact {A} (a b : list A) : firstn (length a) (a ++ b) = a.
-Proof. rewrite firstn_app, Nat.sub_diag, firstn_all. cbn [firstn]. apply app_nil_r. Qed.
-
-Lemma skipn_app_exact {A} (a b : list A) : skipn (length a) (a ++ b) = b.
-Proof. rewrite skipn_app, Nat.sub_diag, skipn_all. reflexivity. Qed.
 
 Section Read.
 Variables comp decomp : HuffC.
@@ -199,7 +194,7 @@ Proof.
     replace (length m + 1 =? 0)%nat with false by (symmetry; apply Nat.eqb_neq; lia).
     replace (length m + 1 =? length m + 1)%nat with true by (symmetry; apply Nat.eqb_refl).
     cbn [negb andb app]. unfold slice_take, slice_skip, view_of. cbn [s_data s_src s_off skipn].
-    rewrite firstn_app_exact. rewrite firstn_length_le by (rewrite app_length; lia). reflexivity.
+    rewrite firstn_app_exact. reflexivity.
   - destruct c as [| | | |m]; cbn [is_connect6 andb ctrl_magic6 app]; try reflexivity.
     apply andb_true_iff in Hty as [Hn Hml]. apply negb_true_iff in Hn. apply Z.leb_le in Hml.
     rewrite app_nil_r. cbn [andb].
@@ -216,7 +211,7 @@ Proof.
     replace (length m + 1 =? 0)%nat with false by (symmetry; apply Nat.eqb_neq; lia).
     replace (length m + 1 =? length m + 1)%nat with true by (symmetry; apply Nat.eqb_refl).
     cbn [negb andb app]. unfold slice_take, slice_skip, view_of. cbn [s_data s_src s_off skipn].
-    rewrite firstn_app_exact. rewrite firstn_length_le by (rewrite app_length; lia). reflexivity.
+    rewrite firstn_app_exact. reflexivity.
 Qed.
 
 Lemma read_connless_enc payload cap :
